@@ -721,11 +721,23 @@ report's exception (fix f1fcb9a, F35) is present — the translator only accepts
 `session.tasks.extend`. -/
 def genRaisesOnFailedChild : Bool := Generated.Prv.genSteps.contains Generated.Prv.GStep.raiseOnCollectFail
 
+/-- … and the loop that raises when a child's signature is already used (fix 6571c4f, F39) is present. -/
+def genRaisesOnDuplicate : Bool := Generated.Prv.genSteps.contains Generated.Prv.GStep.raiseOnDuplicate
+
+/-- `if i.node.signature in signatures: raise …; signatures.add(…)` over the successfully collected children, starting
+from the signatures (= path and base name) of `session.tasks`. -/
+def clashesExisting : List (Path × String) → List Report → Bool
+  | _, [] => false
+  | seen, .fail :: rs => clashesExisting seen rs
+  | seen, .succ p b _ :: rs => seen.contains (p, b) || clashesExisting ((p, b) :: seen) rs
+
 /-- the part of the generator branch after the children were collected: `none` = the generator fails (its task is
-reported FAIL, the build does not end with exit code 0); otherwise the successfully collected children join
-`session.tasks`. -/
-def generatorCollect (raiseOnFail : Bool) (rs : List Report) : Option (List Report) :=
-  if raiseOnFail && rs.any Report.isFail then none else some (rs.filter (fun r => !r.isFail))
+reported FAIL, the build does not end with exit code 0) — because a child could not be collected or because a child's
+signature is already taken —; otherwise the successfully collected children join `session.tasks`. -/
+def generatorCollect (raiseOnFail raiseOnDup : Bool) (existing : List (Path × String)) (rs : List Report) : Option (List Report) :=
+  if raiseOnFail && rs.any Report.isFail then none
+  else if raiseOnDup && clashesExisting existing rs then none
+  else some (rs.filter (fun r => !r.isFail))
 
 /-! ## 7. Shortest unique names (`collect.py:551-590`) -/
 
